@@ -70,6 +70,12 @@ def corpus():
     # a parallel step declared through `processes`; quantities crossing the pipe
     base.append({'kind': 'shutdown', 'ends': 1, 'last_forced': True, 'kill': None, 'kill_at': 0,
                  'par_ts': 1, 'run': [3], 'legacy_step': True, 'units': True, 'override': True})
+    # a compartment with several processes (a serial one first, two parallel ones, one of them nested) is deleted /
+    # divided away: every worker is stopped
+    base.append({'kind': 'shutdown', 'ends': 1, 'last_forced': True, 'kill': 'delete', 'kill_at': 2,
+                 'par_ts': 3, 'run': [4], 'crowd': True})
+    base.append({'kind': 'shutdown', 'ends': 0, 'last_forced': True, 'kill': 'divide', 'kill_at': 1,
+                 'par_ts': 1, 'run': [3], 'crowd': True})
     # the same with a legacy deriver: a Process subclass that overrides is_step()
     base.append({'kind': 'shutdown', 'ends': 1, 'last_forced': True, 'kill': None, 'kill_at': 0,
                  'par_ts': 1, 'run': [3], 'legacy_step': True, 'legacy_kind': 'process'})
@@ -107,7 +113,7 @@ def generate(rng, n, tier):
                         'kill_at': rng.choice([1, 2, 3]), 'par_ts': rng.choice([1, 2, 3, 4, 5]),
                         'sleep': rng.choice([0.0, 0.0, 0.3]), 'killer_first': rng.random() < 0.5,
                         'bystander': rng.random() < 0.4, 'legacy_step': rng.random() < 0.3,
-                        'legacy_kind': rng.choice(['step', 'process']),
+                        'legacy_kind': rng.choice(['step', 'process']), 'crowd': rng.random() < 0.4,
                         'units': rng.random() < 0.3, 'second_change': rng.random() < 0.4,
                         'override': rng.random() < 0.3,
                         'run': [rng.choice([2, 3, 4, 5]) for _ in range(rng.choice([1, 2]))]})
@@ -137,6 +143,13 @@ def _shutdown_run(case, obs):
         # a second compartment keeps the glob store non-empty when `cell` goes (noted edge F20)
         agents = {'cell': {'par': par}, 'other': {'p': TickProcess({'ts': 1, 'var': 'o'})}}
         agents_topo = {'cell': {'par': {'vars': ('vars',)}}, 'other': {'p': {'vars': ('vars',)}}}
+        if case.get('crowd'):
+            # the compartment holds more than one process: a serial one listed first, the parallel one, and a second
+            # parallel one in a sub-compartment — all of them go when the compartment goes
+            agents['cell'] = {'ser': TickProcess({'ts': 1, 'var': 's0'}), 'par': par,
+                              'inner': {'deep': TickProcess({'ts': case['par_ts'], '_parallel': True, 'var': 'dp'})}}
+            agents_topo['cell'] = {'ser': {'vars': ('vars',)}, 'par': {'vars': ('vars',)},
+                                   'inner': {'deep': {'vars': ('vars',)}}}
         processes, topology = {}, {}
         killer = None
         if case['kill']:
